@@ -201,7 +201,9 @@ func execC12b(c CaseC12b) *Outcome {
 	defer emB.mu.Unlock()
 	hasRaw := false
 	for _, f := range c.Frames {
-		if f.Prefix == "raw" {
+		// raw prefixes may or may not form a frame; a frame followed by trailing bytes ("short") may be
+		// delivered as announced or refused: both are within the statement, so only content rules apply
+		if f.Prefix == "raw" || f.Prefix == "short" {
 			hasRaw = true
 		}
 	}
